@@ -517,6 +517,7 @@ class ClassParser(BaseParser):
                     post_init(_obj_self, values, context)
 
             __init__.__parser__ = self
+            __init__.__generated__ = True
         else:
             if not no_parse:
                 self.init_parser = self.function_parser_cls.apply_for(init_func)
@@ -607,8 +608,12 @@ def init_dataclass(
     inst = cls.__new__(cls)
     inst.__context__ = new_context
 
-    # if parser.init_parser:
-    cls.__init__(inst, **data)
+    if getattr(cls.__init__, "__generated__", False):
+        # the generated __init__(_obj_self, _d=None, **kwargs) takes the mapping as its data argument:
+        # no input key ('_obj_self', '_d') can collide with a parameter name
+        cls.__init__(inst, data if isinstance(data, dict) else dict(data))
+    else:
+        cls.__init__(inst, **data)
 
     return inst
 
